@@ -12,8 +12,8 @@ CHECK_DEADLOCK FALSE
 """
 
 
-def mc_and_replay(v, wd, universe, k, workers=12, timeout=1500, min_cases=10):
-    r = vlib.run_tlc("MC_Cos", CFG % (universe, k), wd, "mc_" + universe, workers=workers, timeout=timeout, heap="12g")
+def mc_and_replay(v, wd, universe, k, workers=12, timeout=1500, min_cases=10, extra=None):
+    r = vlib.run_tlc("MC_Cos", CFG % (universe, k), wd, "mc_" + universe, workers=workers, timeout=timeout, heap="12g", extra=extra)
     if r["error"]:
         raise vlib.ToolError("M1 failed on universe %s: %s" % (universe, r["error"][:2000]))
     v.add_tlc(r)
